@@ -539,9 +539,15 @@ def r5(fx):
     want = ['BCD', '002', '2', 'SCT', '', 'NAME', 'IBAN5', 'EUR100', '', 'REF']
     yield ob('EPC line order with structured reference; default character set = first 8-bit codec that fits (2 = ISO-8859-1)', lines == want, fn,
              got=lines, want=want)
-    encs = single([s for s in fn.body if isinstance(s, ast.Assign) and ast.unparse(s.targets[0]) == 'encodings'], 'encodings tuple')
-    yield ob('EPC character-set list (order = character-set number)', tuple(ev.ev(encs.value, {})) == iso.EPC['encodings'], encs,
-             got=ev.ev(encs.value, {}), want=iso.EPC['encodings'])
+    # character-set number k stands for the k-th codec of EPC069-12: a name only that codec (of the eight) writes this way
+    probe = {1: '\u20ac\u0416', 2: '\u00e9\u00fe', 3: '\u0142\u0159', 4: '\u0101\u0137', 5: '\u0416\u044f', 6: '\u03a9\u03b1', 7: '\u0111\u014b', 8: '\u20ac\u0153'}
+    bad = []
+    for k, codec in enumerate(iso.EPC['encodings'], start=1):
+        for sel in (k, codec):
+            got = _epc(fx, it, name=probe[k], encoding=sel)
+            if not isinstance(got, bytes) or got.split(b'\n')[5] != probe[k].encode(codec) or got.split(b'\n')[2] != str(k).encode():
+                bad.append((sel, got if isinstance(got, str) else got.split(b'\n')[2:6]))
+    yield ob('EPC character-set list (order = character-set number): number k / its name selects the k-th codec, for all eight', not bad, fn, got=bad[:3], want=[])
     for k in (1, 2, 5, 8):
         got = _epc(fx, it, encoding=k)
         lines = got.decode('latin1').split('\n') if isinstance(got, bytes) else [got]
